@@ -1,6 +1,7 @@
 # -*- coding: utf-8 -*-
 """C10 — even-sampling conserves statistical weight over the whole spawned tree."""
 import copy
+import math
 
 import numpy as np
 
@@ -224,7 +225,114 @@ def oracle_batch(args):
         {"sum": 1.0}, "; ".join(problems[:2]) or "ok"
 
 
-ORACLES = {"stack_weights": oracle_stack_weights, "batch": oracle_batch}
+def _es_traj(tree, base, N, n, s, seed):
+    """an even-sampling trajectory on hand-made electronics (degenerate energies: every hop is allowed) with the given tree"""
+    import queue
+    import mudslide
+    from mudslide.even_sampling import SpawnStack
+    from ..synth import FakeElec, ShellModel
+    rng = np.random.Generator(np.random.PCG64(seed))
+    mass = 10 ** rng.uniform(0, 3, size=n)
+    dc = rng.normal(size=(N, N, n))
+    dc = dc - np.transpose(dc, (1, 0, 2))
+    elec = FakeElec(np.zeros(N), dc=dc, forces=np.zeros((N, n)), force_matrix=np.zeros((N, N, n)))
+    rho = np.zeros((N, N), dtype=np.complex128)
+    rho[s, s] = 1.0
+    q = queue.Queue()
+    t = mudslide.EvenSamplingTrajectory(ShellModel(N, mass), rng.normal(size=n), rng.normal(size=n) * mass, rho, queue=q,
+                                        electronics=elec, state0=s, dt=1.0, seed_sequence=seed,
+                                        spawn_stack=SpawnStack(copy.deepcopy(tree), base))
+    t.update_weight(t.spawn_stack.weight())
+    return t, q, elec
+
+
+def _cross(traj, q, elec, a, ratios):
+    """make the trajectory's accumulated probability equal to `a` in one hopper call with branching `ratios` (zero on the
+    active state), carry out the spawn; returns (#thresholds crossed, dw crossed, children)"""
+    st = traj.spawn_stack
+    before = st.izeta
+    dws = [float(x["dw"]) for x in st.sample_stack]
+    G = -math.log1p(-(a - float(traj.prob_cum)) / (1.0 - float(traj.prob_cum)))
+    probs = np.array(ratios, dtype=np.float64) * G
+    targets = traj.hopper(probs)
+    if not targets:
+        return 0, 0.0, []
+    traj.hop_to_it(targets, elec)
+    kids = []
+    while not q.empty():
+        kids.append(q.get_nowait())
+    return st.izeta - before, float(sum(dws[before:st.izeta])), kids
+
+
+@safe_oracle
+def oracle_generations(args):
+    """two generations of spawning through EvenSamplingTrajectory.hopper/hop_to_it on a tree of depth >= 2 with N >= 3 states:
+    each child carries (its parent's base weight) x (dw crossed) x (branching ratio) / multiplicity, the parent keeps the
+    marginal rest, and the same holds again when a child crosses a threshold of its own sub-tree (its base weight being the
+    weight it was born with); weights are non-negative and each family sums to what its parent had"""
+    tree, base, N, s = args["tree"], float(args["base"]), int(args["N"]), int(args["s"])
+    traj, q, elec = _es_traj(tree, base, N, int(args["n"]), s, int(args["seed"]))
+    problems = []
+    w0 = float(traj.weight)
+    if not close(w0, base, abs(base), rtol=1e-12):
+        problems.append("initial weight %r, base %r" % (w0, base))
+    r1 = np.array(args["r1"], dtype=np.float64)
+    ncross, dw, kids = _cross(traj, q, elec, float(args["a1"]), r1)
+    exhausted = traj.spawn_stack.izeta == len(tree)
+    gen2 = 0
+    if ncross:
+        per_target = {}
+        for c in kids:
+            per_target.setdefault(int(c.state), []).append(c)
+        for t_, cs in per_target.items():
+            want = base * dw * r1[t_] / len(cs)
+            for c in cs:
+                if not close(float(c.weight), want, abs(base), rtol=1e-12) or c.weight < 0:
+                    problems.append("child on state %d born with weight %r, base*dw*ratio/multiplicity = %r" % (t_, float(c.weight), want))
+        tot = float(traj.weight) + sum(float(c.weight) for c in kids)
+        if not exhausted and not close(tot, base, abs(base), rtol=1e-12):
+            problems.append("parent %r + children %r = %r, parent had %r" % (float(traj.weight), tot - float(traj.weight), tot, base))
+        # second generation: every child with a sub-tree crosses its own thresholds
+        for ci, c in enumerate(kids):
+            sub = c.spawn_stack.sample_stack
+            if not sub:
+                continue
+            born = float(c.weight)
+            r2 = np.array(args["r2"], dtype=np.float64)
+            r2 = np.where(np.arange(N) == c.state, 0.0, r2)
+            r2 = r2 / r2.sum()
+            zs = [float(x["zeta"]) for x in sub]
+            a2 = float(args["a2"][ci % len(args["a2"])])
+            if any(abs(a2 - z) < 1e-9 for z in zs) or a2 <= float(c.prob_cum):
+                continue
+            q2 = c.queue
+            nc2, dw2, grand = _cross(c, q2, elec, a2, r2)
+            if not nc2:
+                if float(c.weight) != born:
+                    problems.append("child %d changed weight %r -> %r without crossing" % (ci, born, float(c.weight)))
+                continue
+            gen2 += 1
+            ex2 = c.spawn_stack.izeta == len(sub)
+            pt = {}
+            for g in grand:
+                pt.setdefault(int(g.state), []).append(g)
+            for t_, gs in pt.items():
+                want = born * dw2 * r2[t_] / len(gs)
+                for g in gs:
+                    if not close(float(g.weight), want, abs(born) + 1e-300, rtol=1e-12) or g.weight < 0:
+                        problems.append("grandchild on state %d born with %r; its parent's weight*dw*ratio/multiplicity = %r"
+                                        % (t_, float(g.weight), want))
+            tot2 = float(c.weight) + sum(float(g.weight) for g in grand)
+            if not ex2 and not close(tot2, born, abs(born) + 1e-300, rtol=1e-12):
+                problems.append("child %d: %r kept + %r to its children = %r, it was born with %r"
+                                % (ci, float(c.weight), tot2 - float(c.weight), tot2, born))
+            if problems:
+                break
+    return not problems, {"crossed": ncross, "children": len(kids), "second_generation_crossings": gen2, "problems": problems[:3]}, \
+        {"problems": []}, "; ".join(problems[:2]) or "ok"
+
+
+ORACLES = {"stack_weights": oracle_stack_weights, "batch": oracle_batch, "generations": oracle_generations}
 
 
 def run(ctx):
@@ -308,6 +416,40 @@ def run(ctx):
         ok, obs, req, text = oracle_stack_weights(a)
         if not ok:
             ctx.oracle_fail("stack-weights", "stack_weights", a, obs, req, text)
+
+    # two generations of spawning through the trajectory class itself (depth >= 2, N >= 3: fractional branching ratios)
+    for i in range(ctx.budget(40, 3000)):
+        depth = int(rng.integers(2, 4))
+        if i % 2 == 0:
+            ns = [int(v) for v in rng.integers(2, 5, size=depth)]
+            method = ["gl", "cc", "midpoint", "trapezoid"][(i // 2) % 4]
+            tree = copy.deepcopy(SpawnStack.from_quadrature(ns, method=method, mcsamples=int(rng.integers(1, 4))).sample_stack)
+            for lvl in _walk(tree):
+                lvl["zeta"], lvl["dw"] = float(lvl["zeta"]), float(lvl["dw"])
+        else:
+            tree = random_tree(rng, depth, dyadic=True)
+        N = int(rng.integers(3, 6))
+        s_ = int(rng.integers(0, N))
+        r1 = rng.random(N) + 0.05
+        r1[s_] = 0.0
+        r1 = r1 / r1.sum()
+        zs = sorted(float(x["zeta"]) for x in tree)
+        # a1 strictly between thresholds (or past the last): crosses 1..all of them
+        j = int(rng.integers(0, len(zs)))
+        lo, hi = zs[j], (zs[j + 1] if j + 1 < len(zs) else min(1.0, zs[j] + 0.2))
+        if not hi > lo + 1e-6 or lo <= 0.0 or lo >= 0.999:
+            continue
+        a = {"tree": tree, "base": float(rng.choice([1.0, 0.5, rng.random()])), "N": N, "n": int(rng.integers(1, 4)), "s": s_,
+             "seed": int(rng.integers(1, 2 ** 31)), "r1": [float(v) for v in r1], "a1": float(lo + (hi - lo) * rng.uniform(0.1, 0.9)) if hi < 1.0 or j + 1 < len(zs) else float(lo + (0.9999 - lo) * 0.5),
+             "r2": [float(v) for v in rng.random(N) + 0.05], "a2": [float(v) for v in rng.uniform(0.05, 0.97, size=3)]}
+        if not (0.0 < a["a1"] < 1.0):
+            continue
+        ok, obs, req, text = oracle_generations(a)
+        ctx.case(("generations", depth, N, min(int(obs["second_generation_crossings"]), 3), int(obs["crossed"]) >= 2))
+        ctx.count("generation_scripts")
+        ctx.count("second_generation_crossings", int(obs["second_generation_crossings"]))
+        if not ok:
+            ctx.oracle_fail("spawn-generations", "generations", a, obs, req, text)
 
     for i in range(ctx.budget(8, 150)):
         a = dict(model=["simple", "dual", "extended", "super"][i % 4], x0=float(-rng.uniform(3.5, 6)), k=float(rng.uniform(6, 28)),
